@@ -300,6 +300,9 @@ class SolverWorld:
         w = self
 
         def norm(ex, v):
+            if v is None or isinstance(v, (str, bool)):
+                # contract of a norm: its argument is an array; numpy raises TypeError for None (a loop-carried vector that is still unset)
+                raise PyRaise(make_exc(ex.interp, "TypeError", f"unsupported operand type for norm: {type(v).__name__}"))
             if isinstance(v, LinVec) and getattr(v, "nan", False):
                 val = NAN
             else:
